@@ -247,11 +247,11 @@ class Verdict:
             tail = "" if v.get("counterexample") else " no-failing-input-found"
             print("VIOLATION property=%s replay=%s%s" % (self.prop, path, tail))
             print("  failed: %s" % v["what"])
+        for u in self.undecided:
+            print("UNDECIDED property=%s %s" % (self.prop, u))
         if self.violations:
             return 1
         if self.undecided:
-            for u in self.undecided:
-                print("UNDECIDED property=%s %s" % (self.prop, u))
             return 2
         print("OK property=%s tier=%s (%.1fs)" % (self.prop, self.tier, time.time() - self.t0))
         return 0
@@ -347,3 +347,46 @@ def merge_cov(covs):
         out["solver_ms"] += c.get("solver_ms") or 0
         out["units"][c.get("unit", "?")] = c
     return out
+
+
+def _ob_function(ob):
+    """'slots/post:storage_slots_used' -> 'storage_slots_used'; 'slots/site:fn foo@file:12' -> 'foo'"""
+    tail = ob.split("/", 1)[1] if "/" in ob else ob
+    m = re.match(r"(?:post|inv|lemma|assert|arm):([A-Za-z0-9_]+)", tail)
+    if m:
+        return m.group(1)
+    m = re.match(r"(?:site|body):(?:fn|impl)\s+([A-Za-z0-9_]+)", tail)
+    if m:
+        return m.group(1)
+    return None
+
+
+def combine(vd, failed, nat, key_to_functions=None, undecided_prefix=""):
+    """Turn failed Verus obligations + native violations into violations / undecided.
+    A failed obligation is a VIOLATION when Verus refuted it definitely or when the bounded search found a
+    concrete failing input for the same function; otherwise it is undecided (never an alarm)."""
+    nat_v = list(nat.get("violations", [])) if nat else []
+    used = set()
+    for ob, fs in sorted(failed.items()):
+        fn = _ob_function(ob)
+        definite = [f for f in fs if f["class"] == "definite"]
+        text = "\n".join(f["text"] for f in fs)[:6000]
+        ce = None
+        for i, v in enumerate(nat_v):
+            if i in used:
+                continue
+            fns = key_to_functions(v["key"]) if key_to_functions else None
+            if (fns is not None and fn in fns) or (fns is None and fn and fn in v["key"]):
+                ce = v
+                used.add(i)
+                break
+        if definite or ce:
+            vd.add_violation(ob, "obligation %s: %s" % (ob, (definite or fs)[0]["msg"]) + ((" -- " + ce["what"]) if ce else ""),
+                             obligation=ob, verifier_output=text, counterexample=ce["replay"] if ce else None,
+                             expected=ce.get("expected") if ce else None, actual=ce.get("actual") if ce else None)
+        else:
+            vd.add_undecided("%s%s: %s (no definite refutation and no failing input found)" % (undecided_prefix, ob, fs[0]["msg"][:160]))
+    for i, v in enumerate(nat_v):
+        if i not in used:
+            vd.add_violation(v["key"], v["what"], obligation="bounded executable contract (no failing proof obligation)", counterexample=v.get("replay"),
+                             expected=v.get("expected"), actual=v.get("actual"))
